@@ -49,7 +49,8 @@ THEOREMS = [
     "PP.filter_skip",
     "PP.filter_skip_line",
 ]
-RULE = ("format: generated message x formatter x timezone; cli: stream of 2-8 lines (Eliot lines plus foreign ones, at most one "
+RULE = ("every case runs in one of 8 reader time zones (UTC, fixed offsets, daylight-saving zones of both hemispheres); "
+        "format: generated message x formatter x timezone; cli: stream of 2-8 lines (Eliot lines plus foreign ones, at most one "
         "line of a kind that is known to abort the program per stream) x formatter x timezone; filter: 2-7 Eliot lines x expression; "
         "non-trivial = message with a nested or multi-line value, or a stream with >= 1 foreign line; distinct by canonical hash")
 TRUSTED = ["pprint.pformat, json.dumps/loads, str(), datetime.(utc)fromtimestamp().isoformat(), bytes repr: parameters of the model, "
@@ -68,8 +69,14 @@ FIRST_FIELDS = ["action_type", "message_type", "action_status"]
 REQUIRED = ["task_level", "task_uuid", "timestamp"]
 DEEP = 450
 DEFAULT_RECURSION_LIMIT = sys.getrecursionlimit()
-TZ = "XVT-05:45"  # POSIX TZ string: fixed offset UTC+5:45, needs no tzdata
-TZ_OFFSET = _dt.timedelta(hours=5, minutes=45)
+TZ = "XVT-05:45"  # POSIX TZ string: fixed offset UTC+5:45, needs no tzdata (also the zone of cases recorded before zones were varied)
+# the reader's own time zone is part of "all environments": UTC, fixed offsets, zones with daylight saving on either hemisphere.
+# POSIX rule strings stand in for the named zones where tzdata is missing.
+TZS = ["UTC", TZ, "Asia/Kolkata", "Europe/London", "America/New_York", "Australia/Sydney",
+       "GMT0BST,M3.5.0/1,M10.5.0/2", "EST5EDT,M3.2.0,M11.1.0"]
+if not os.path.exists("/usr/share/zoneinfo/Europe/London"):
+    TZS = ["UTC0", TZ, "IST-5:30", "GMT0BST,M3.5.0/1,M10.5.0/2", "EST5EDT,M3.2.0,M11.1.0", "AEST-10AEDT,M10.1.0,M4.1.0/3"]
+LINE_BOUNDARIES = "\n\r\x0b\x0c\x1c\x1d\x1e\x85\u2028\u2029"
 
 
 # ---- generation -----------------------------------------------------------------------------
@@ -77,7 +84,8 @@ TZ_OFFSET = _dt.timedelta(hours=5, minutes=45)
 NAMES = ["x", "y", "key", "result", "exception", "reason", "message_type", "action_type", "action_status", "a b", "k=v", "é", "日本",
          "", "Z", "_", "a:b", "| ", "  indent", "\t", "task", "0", "\U0001f600"]
 STRS = ["", "a", "hello world", "line1\nline2", "tab\there", "back\\slash", "lit\\n", "quote'\"", "é", " ", "\U0001f600",
-        "x" * 50, "many words " * 6, "a\nb\nc\n", "\\t", "{not json", "k=v w=z", "\x00\x1f", "\ud800"]
+        "x" * 50, "many words " * 6, "a\nb\nc\n", "\\t", "{not json", "k=v w=z", "\x00\x1f", "\ud800",
+        "na\u00efve caf\u00e9", "\u2028", "next\x85line", "caf\udce9", "a\udc80b", "\ud83d", "\u65e5\u672c\u8a9e \U0001f600"]
 
 
 def gen_value(rng, depth=0):
@@ -106,9 +114,13 @@ def gen_ts(rng):
         return float(rng.randint(0, 2 * 10 ** 9))
     if r < 0.7:
         return rng.randint(0, 2 * 10 ** 9)
-    if r < 0.85:
+    if r < 0.8:
         return rng.randint(0, 10 ** 9) + rng.choice([0.5e-6, 1.5e-6, 0.999999, 0.9999995, 0.000001, 0.1234565])
-    return rng.choice([0, 0.0, 1.0000005, 86399.999999, 951782400.0, 1709164800.5, 4102444799.999999, 32503680000.0])
+    if r < 0.93:
+        return rng.choice([0, 0.0, 1.0000005, 86399.999999, 951782400.0, 1709164800.5, 4102444799.999999, 32503680000.0])
+    # summer / winter noon, and the hours around the 2021 daylight-saving changes of London, New York and Sydney
+    base = rng.choice([1625140800, 1610712000, 1616893200, 1635642000, 1615705200, 1636264800, 1617465600, 1633190400])
+    return base + rng.choice([0, -1, 1, -3600, 3600, 1800.5, -0.000001])
 
 
 def gen_message(rng, newline_name=False):
@@ -206,6 +218,9 @@ def tolerated_lines(rng):
     d = dict(base, timestamp=-1.5)
     out.append(json.dumps(d).encode() + b"\n")
     out.append(bytes(rng.randrange(256) for _ in range(rng.randint(1, 12))).replace(b"\n", b"?") + b"\n")
+    # a file name decoded with surrogateescape, logged by a producer that escapes it; a line separator inside a value
+    out.append(b'{"task_uuid":"u","task_level":[1],"timestamp":1.0,"path":"caf\\udce9","message_type":"m"}\n')
+    out.append(b'{"task_uuid":"u","task_level":[1],"timestamp":1.0,"text":["a\\u2028b","\\ud83d"]}\n')
     return out
 
 
@@ -323,7 +338,8 @@ def real_cli(data, compact, local):
     from eliot import prettyprint
 
     old = (prettyprint.stdin, prettyprint.stdout, sys.argv)
-    out = io.StringIO()
+    raw = io.BytesIO()
+    out = io.TextIOWrapper(raw, encoding="utf-8", errors="strict", newline="")   # what a UTF-8 terminal, pipe or file is
     prettyprint.stdin, prettyprint.stdout = io.BytesIO(data), out
     sys.argv = ["eliot-prettyprint"] + (["-c"] if compact else []) + (["-l"] if local else [])
     abort = None
@@ -333,7 +349,11 @@ def real_cli(data, compact, local):
         abort = type(e).__name__
     finally:
         prettyprint.stdin, prettyprint.stdout, sys.argv = old
-    return {"out": out.getvalue(), "abort": abort}
+    try:
+        out.flush()
+    except Exception as e:  # noqa
+        abort = abort or type(e).__name__
+    return {"out": raw.getvalue().decode("utf-8", "replace"), "abort": abort}
 
 
 class _FakeSys:
@@ -388,7 +408,9 @@ def check_ts(text, ts, local):
         return "timestamp %r is not YYYY-MM-DDTHH:MM:SS[.ffffff]" % text
     y, mth, d, h, mi, s, us = mo.groups()
     shown = _dt.datetime(int(y), int(mth), int(d), int(h), int(mi), int(s), int(us or 0))
-    want = _dt.datetime(1970, 1, 1) + _dt.timedelta(microseconds=round(Fraction(ts) * 10 ** 6)) + (TZ_OFFSET if local else _dt.timedelta(0))
+    # UTC by exact arithmetic; the zone's offset at that instant from the C library (the zone is the case's TZ, set by the caller)
+    off = _dt.timedelta(seconds=time.localtime(math.floor(ts)).tm_gmtoff) if local else _dt.timedelta(0)
+    want = _dt.datetime(1970, 1, 1) + _dt.timedelta(microseconds=round(Fraction(ts) * 10 ** 6)) + off
     if shown != want:
         return "timestamp shown as %s, the message's timestamp %r is %s" % (shown.isoformat(), ts, want.isoformat())
     return None
@@ -496,6 +518,15 @@ def oracle_format(ctx, case, obs):
             pass
     else:
         err, key = oracle_pretty(m, obs["ok"], local)
+    text = obs["ok"]
+    names_clean = not any(has_surrogate(k) for k in m) and not has_surrogate(m["task_uuid"])
+    if err is None and names_clean:
+        try:
+            text.encode("utf-8")
+        except UnicodeEncodeError as e:
+            err, key = "the rendering cannot be written to a UTF-8 stream (%s) although no field name needs it" % e.reason, {}
+    if err is None and compact and len(text.splitlines()) > 1 and not any(ch in k for k in list(m) + [str(m["task_uuid"])] for ch in LINE_BOUNDARIES):
+        err, key = "compact output is more than one line for readers that split at %r" % [c for c in LINE_BOUNDARIES if c in text][:1], {}
     if err:
         k = dict(key) if ("field_name_contains" in key) else None
         ctx.violation("%s: %s; message %r" % ("compact_format" if compact else "pretty_format", err, m), case, key=k)
@@ -525,6 +556,10 @@ def abort_key(line, compact, local):
         return {"line": "not-json"}
     if not isinstance(v, dict):
         return {"line_json_type": json_type(v)}
+    if has_surrogate(list(v.values())):
+        clean = json.loads(re.sub(r"[\ud800-\udfff]", "?", json.dumps(v, ensure_ascii=False)))
+        if real_cli(json.dumps(clean).encode() + b"\n", compact, local)["abort"] is None:
+            return {"line": "lone-surrogate-in-value", "format": "compact" if compact else "pretty"}
     shallow = {k: (x if depth(x) < 100 else []) for k, x in v.items()}
     if shallow != v and real_cli(json.dumps(shallow).encode() + b"\n", compact, local)["abort"] is None:
         return {"line": "deeply-nested-value", "format": "compact" if compact else "pretty"}
@@ -652,7 +687,7 @@ def gen_cases(ctx):
     cases = []
     for i in range(ctx.budget(300, 9000)):
         m = gen_message(rng, newline_name=(i % 23 == 7))
-        cases.append(dict(kind="format", compact=rng.random() < 0.5, local=rng.random() < 0.3, msg=m))
+        cases.append(dict(kind="format", compact=rng.random() < 0.5, local=rng.random() < 0.3, msg=m, tz=rng.choice(TZS)))
     # the hand-found one: a newline in a field name, compact
     cases.append(dict(kind="format", compact=True, local=False,
                       msg={"task_uuid": "u", "task_level": [1], "timestamp": 1.0, "a\nb": 1}))
@@ -667,7 +702,7 @@ def gen_cases(ctx):
             lines.insert(rng.randrange(len(lines) + 1), bad[(i // 3) % len(bad)][0])
         if rng.random() < 0.3:
             lines[-1] = lines[-1].rstrip(b"\n") or b"x"
-        cases.append(dict(kind="cli", compact=rng.random() < 0.5, local=rng.random() < 0.3, lines=[list(l) for l in lines]))
+        cases.append(dict(kind="cli", compact=rng.random() < 0.5, local=rng.random() < 0.3, lines=[list(l) for l in lines], tz=rng.choice(TZS)))
     # every known-bad line once, alone (stable keys on every seed)
     for l, _key in bad:
         cases.append(dict(kind="cli", compact=False, local=False, lines=[list(l)]))
@@ -679,7 +714,12 @@ def gen_cases(ctx):
             if not has_surrogate(m):
                 ms.append(m)
         texts = [json.dumps(m, ensure_ascii=rng.random() < 0.5) + "\n" for m in ms]
-        cases.append(dict(kind="filter", filter=i % len(FILTERS), lines_text=texts))
+        cases.append(dict(kind="filter", filter=i % len(FILTERS), lines_text=texts, tz=rng.choice(TZS)))
+    # summer and winter noon in a daylight-saving zone, both formatters, UTC rendering: on every seed
+    for ts in (1625140800.25, 1610712000.25):
+        for compact in (False, True):
+            cases.append(dict(kind="format", compact=compact, local=False, tz=TZS[3],
+                              msg={"task_uuid": "u", "task_level": [1], "timestamp": ts, "message_type": "m"}))
     return cases
 
 
@@ -769,9 +809,12 @@ def run_one(ctx, c, mo):
 
 
 class _Tz:
+    def __init__(self, tz=TZ):
+        self.tz = tz
+
     def __enter__(self):
         self.old = os.environ.get("TZ")
-        os.environ["TZ"] = TZ
+        os.environ["TZ"] = self.tz
         time.tzset()
 
     def __exit__(self, *a):
@@ -783,11 +826,16 @@ class _Tz:
 
 
 def run(ctx):
-    with _Tz():
-        cases = gen_cases(ctx)
-        model = lean_driver("Driver/C20.lean", [model_case(c) for c in cases])
-        for c, mo in zip(cases, model):
+    cases = gen_cases(ctx)
+    mcs = []
+    for c in cases:
+        with _Tz(c.get("tz", TZ)):    # the library parameters of the model (datetime among them) are tabulated in the case's zone
+            mcs.append(model_case(c))
+    model = lean_driver("Driver/C20.lean", mcs)
+    for c, mo in zip(cases, model):
+        with _Tz(c.get("tz", TZ)):
             run_one(ctx, c, mo)
+            ctx.count("zone:" + c.get("tz", TZ))
     if "correspondence:readers-model" not in ctx.broken:
         ctx.obligation("correspondence:readers-model", "correspondence", True, "%d cases compared" % ctx.traces)
 
@@ -796,7 +844,7 @@ def replay(ctx, obj):
     c = obj.get("case") or {}
     if "case" in c and "real" in c:
         c = c["case"]
-    with _Tz():
+    with _Tz(c.get("tz", TZ)):
         if c.get("kind") == "format":
             obs = real_format(c["msg"], c["compact"], c["local"])
             print(obs.get("ok", obs))
